@@ -9,7 +9,7 @@ PROP = {
                    "exact output multiset under the BOLT-3 trim rule re-implemented in the harness, cross-party txid/field identity "
                    "per height, balance deltas explained by HTLC adds/removals only, mirror + closed-form ledger balances at quiescence."),
     "level_note": ("Held on the schedules executed (counts in evidence), all 7 channel types x both openers; aux/custom "
-                   "channel leaves not exercised; <= ~15 HTLCs in flight; peer misbehaviour out of scope by the statement."),
+                   "channel leaves not exercised; up to ~15 HTLCs in flight in ordinary schedules plus bursts of 20-320 adds in one case out of fifteen (counter burst_cases); peer misbehaviour out of scope by the statement."),
     "design_ref": "DESIGN.md §2 E1, §3 C01",
     "rule": ("case = (channel params, 30-80 PRNG actions) from (seed, index); non-trivial = at least one HTLC became irrevocably "
              "committed, at least one commitment signed, not constraint-terminated; distinct = distinct (channel type, opener, "
